@@ -411,6 +411,15 @@ def sysStep (st : St) (ext : Ext) (routed : Bool) (face : Nat) (name : Name) (p 
   | .panic m => (st', .panic m)
   | r => if (faceGet st'.faces face).isSome then (st', r) else (st', .none)
 
+/-! ### a face closing on its own (fw/face: transport Close → runSend → FaceTable.Remove) -/
+
+/-- the transport of face `f` is closed locally (expiration handler, shutdown, peer gone): the link
+    service's send loop unregisters the face and the RIB drops its routes -/
+def faceClosed (st : St) (ext : Ext) (f : Nat) : St :=
+  if (faceGet st.faces f).isSome then
+    { st with faces := faceRemove st.faces f, rib := ribCleanFace st.rib f, fib := ext.fibAfter }
+  else st
+
 /-! ### sendPacket MTU arithmetic (fw/face/ndnlp-link-service.go, after the C10 fixes) -/
 
 inductive SendOutcome
